@@ -10,7 +10,7 @@ def run(prop, tier):
     t0 = time.time()
     p = 2 if tier == "quick" else 3
     jobs = []
-    for code in ("r", "0", "7", "-3"):
+    for code in ("r", "0", "7", "-3", "2147483647", "-2147483648", "256", "65536"):
         jobs.append(dict(src=SRC, args=["join", "-p", p, "--", code]))
     for code in ("r", "7"):          # p_uthread_create_full with explicit priority, stack size and name
         jobs.append(dict(src=SRC, args=["join", "-p", p, "--", code, "f"]))
